@@ -287,15 +287,7 @@ def kevent_fields(repo: Repo):
 def check(repo: Repo, run: Run) -> None:
     kmod = repo.module("kevent")
     fn = repo.function("kevent", "from_kd_buf")
-    fields = kevent_fields(repo)
-    interp = sym.Interp(repo)
-    params = [a.arg for a in fn.args.args]
-    if len(params) != 1:
-        raise AnalysisError("from_kd_buf no longer takes exactly one parameter")
-    inp = sym.param(params[0])
-    rec = interp.run(kmod, fn, {params[0]: inp})
-    run.analysed.update({"function": "kevent.from_kd_buf", "kevent_fields": fields})
-
+    # (the constants are judged first: they do not depend on how the record object is built)
     # ---- R3 masks
     m1 = consteval.evaluate(repo, kmod, kmod.constants.get("KDBG_EVENTID_MASK"))
     m2 = consteval.evaluate(repo, kmod, kmod.constants.get("KDBG_FUNC_MASK"))
@@ -311,6 +303,15 @@ def check(repo: Repo, run: Run) -> None:
                    f"masks leave bits {hex(0xffffffff ^ (m1 | m2))} of the debug id unassigned")
     else:
         run.note("mask constants are not module-level names any more; R2's bit-level facts decide the masks")
+
+    fields = kevent_fields(repo)
+    interp = sym.Interp(repo)
+    params = [a.arg for a in fn.args.args]
+    if len(params) != 1:
+        raise AnalysisError("from_kd_buf no longer takes exactly one parameter")
+    inp = sym.param(params[0])
+    rec = interp.run(kmod, fn, {params[0]: inp})
+    run.analysed.update({"function": "kevent.from_kd_buf", "kevent_fields": fields})
 
     # ---- R4 sizes
     if isinstance(fmt, str):
